@@ -77,6 +77,16 @@ func VerifHarness_C02_links() {
 			verifrt.Reach("C02.event.process")
 		}
 		vkChainLinked(ctx, node, steps[e])
+		// hash -> height is the inverse of height -> hash for EVERY hash the peer ever used, in
+		// particular for blocks a reorganisation removed
+		for _, name := range tree.names {
+			hash := tree.hashOf(name)
+			if h, ok := node.blocks.Height(&hash); ok {
+				at, herr := node.blocks.Hash(ctx, h)
+				verifrt.Sig("lookup", "inverse")
+				verifrt.Assert(herr == nil && at != nil && *at == hash, "C02.lookup.hash-to-height-is-inverse-of-height-to-hash")
+			}
+		}
 		if k.store.find("spynode/reorgs/active") >= 0 {
 			verifrt.Reach("C02.reorg.recorded")
 		}
